@@ -73,11 +73,13 @@ def run_case(run, case_seed, tier):
         total_decoys = [open(p, "rb").read() for k, p in placed if k == "total"]
         assigned = {}
         recorded = {}
+        originals = {}
         for t in torrents:
             for p, blob in rb.torrent_files(t):
                 rel = t["name"] if t["single"] else os.path.join(t["name"], *p.split("/"))
                 assigned[rel] = (p.split("/")[-1], len(blob))
                 recorded[rel] = len(blob)
+                originals[rel] = blob.bytes()
         for round_no in (1, 2):
             outside0 = {d: snapshot(d) for d in sdirs + [os.path.join(box, "metas")]}
             dest0 = snapshot(dest)
@@ -107,6 +109,11 @@ def run_case(run, case_seed, tier):
                     why = f"{rel} is not a copy of a search file with the recorded name and length"
                 elif data in total_decoys:
                     why = f"{rel}: a decoy none of whose bytes verify was placed"
+                elif rel in originals and data != originals[rel] and not any(
+                        data[i:i + 16384] == originals[rel][i:i + 16384]
+                        for i in range(0, len(data), 16384)):
+                    why = (f"{rel}: placed a same-named same-sized file none of whose blocks "
+                           "agree with the payload described for that path")
             for ev in tr.mutating():
                 for pth in ev[1:] if ev[0] in ("rename", "move") else ev[-1:]:
                     if pth and not (pth == dest or pth.startswith(dest + os.sep)):
